@@ -4,6 +4,7 @@ changes (and/or fix reverts) partitioned over them.  Results are copied into wor
 
   tools/rehearse_par.py <N> seeded [<name-or-PID> ...]
   tools/rehearse_par.py <N> fixes  [<PID> ...]
+  tools/rehearse_par.py <N> patchdir <dir> [<PID> ...]     every <dir>/<name>/patch.diff against the given (default: all) checks
 
 The worktrees live under /var/tmp/vt/vpar-<k> and are removed afterwards.  Uncommitted changes of /verif are NOT seen:
 commit first.
@@ -20,6 +21,8 @@ def sh(cmd, **kw):
 
 def main():
     n = int(sys.argv[1]); mode = sys.argv[2]; only = sys.argv[3:]
+    if mode == "patchdir":
+        return patchdir(n, os.path.abspath(only[0]), only[1:] or ["C%02d" % i for i in range(1, 21)])
     if mode == "seeded":
         items = []
         for name in sorted(os.listdir(os.path.join(ROOT, "seeded"))):
@@ -65,6 +68,37 @@ def main():
     sh("git -C %s worktree prune" % ROOT)
     for k, wt, p, log in procs:
         for l in open(log.name):
+            if " caught" in l or "MISSED" in l or "check-error" in l or "PREPARE" in l:
+                print(l.rstrip())
+
+
+def patchdir(n, d, pids):
+    names = sorted(x for x in os.listdir(d) if os.path.exists(os.path.join(d, x, "patch.diff")))
+    bins = [names[k::n] for k in range(n)]
+    os.makedirs(SCR, exist_ok=True)
+    ts = int(time.time())
+    procs = []
+    for k, ns in enumerate(bins):
+        if not ns:
+            continue
+        wt = os.path.join(SCR, "vpar-%d" % k)
+        sh("git -C %s worktree remove --force %s" % (ROOT, wt)); shutil.rmtree(wt, ignore_errors=True)
+        r = sh("git -C %s worktree add --detach %s HEAD" % (ROOT, wt))
+        assert r.returncode == 0, r.stdout
+        sh("rsync -a --exclude Corr --exclude .lock %s/coq/ %s/coq/" % (ROOT, wt))
+        logname = os.path.join(ROOT, "work", "rehearse_par_%d_%d.log" % (ts, k))
+        cmd = " ; ".join("%s/tools/rehearse.py patch %s %s" % (wt, os.path.join(d, x, "patch.diff"), " ".join(pids)) for x in ns)
+        p = subprocess.Popen(cmd, shell=True, stdout=open(logname, "w"), stderr=subprocess.STDOUT, cwd=wt)
+        procs.append((k, wt, p, logname))
+    for k, wt, p, logname in procs:
+        p.wait()
+        for f in os.listdir(os.path.join(wt, "work")):
+            if f.startswith("rehearsal_") and f.endswith(".json"):
+                shutil.copy(os.path.join(wt, "work", f), os.path.join(ROOT, "work", "harmless_%d_%d_%s" % (ts, k, f[10:])))
+        sh("git -C %s worktree remove --force %s" % (ROOT, wt)); shutil.rmtree(wt, ignore_errors=True)
+    sh("git -C %s worktree prune" % ROOT)
+    for k, wt, p, logname in procs:
+        for l in open(logname):
             if " caught" in l or "MISSED" in l or "check-error" in l or "PREPARE" in l:
                 print(l.rstrip())
 
